@@ -120,7 +120,7 @@ fn cmd_io(m: &HashMap<String, String>) -> i32 {
         for i in [0usize, 1, 2, 3, 4, 5, 6, 7] {
             if i < done {
                 let p = io_run::seeded_plan(seed, i);
-                let r = io::execute(&p, true);
+                let r = io_run::execute_isolated(&p, true);
                 if r.faults_fired > 0 && samples.len() < 3 {
                     samples.push(J::obj().set("run_index", J::u(i)).set("plan", p.to_json()).set("event_log", J::Arr(r.log.iter().map(|l| J::s(l)).collect())));
                 }
@@ -157,7 +157,7 @@ fn cmd_io(m: &HashMap<String, String>) -> i32 {
     let mut code = 0;
     if let Some((source, idx, plan, v)) = violation {
         let (minp, minv, tries) = io_run::minimise(&plan, &v);
-        let r = io::execute(&minp, true);
+        let r = io_run::execute_isolated(&minp, true);
         let _ = std::fs::create_dir_all(&replay_dir);
         let path = format!("{}/{}-{}-{}{}.json", replay_dir, property, seed, if source == "sweep" { "sweep" } else { "run" }, idx);
         let rj = io_run::replay_json(&property, seed, idx, &source, &minp, &plan, &minv, &r.log);
@@ -166,8 +166,25 @@ fn cmd_io(m: &HashMap<String, String>) -> i32 {
         }
         // the minimised plan must fail the same way in a fresh process
         let exe = std::env::current_exe().unwrap();
-        let st = std::process::Command::new(exe).arg("replay").arg(&path).arg("--quiet").status();
-        let reproduced = matches!(st.as_ref().map(|s| s.code()), Ok(Some(1)));
+        let st = std::process::Command::new(&exe).arg("replay").arg(&path).arg("--quiet").status();
+        let mut reproduced = matches!(st.as_ref().map(|s| s.code()), Ok(Some(1)));
+        let mut with_prelude = false;
+        if !reproduced {
+            // it may depend on per-thread library state left behind by earlier plans of its chunk, or on
+            // process-global state left behind by the whole batch prefix: replay the batch as it ran
+            for from in [(idx as usize / io_run::CHUNK) * io_run::CHUNK, 0usize] {
+                let mut rj2 = io_run::replay_json(&property, seed, idx, &source, &plan, &plan, &v, &r.log);
+                rj2.put("prelude", J::obj().set("source", J::s(&source)).set("from", J::u(from)).set("upto", J::Int(idx)).set("values_per_type", J::u(sweep_values)));
+                if std::fs::write(&path, rj2.pretty()).is_ok() {
+                    let st = std::process::Command::new(&exe).arg("replay").arg(&path).arg("--quiet").status();
+                    if matches!(st.as_ref().map(|s| s.code()), Ok(Some(1))) {
+                        reproduced = true;
+                        with_prelude = true;
+                        break;
+                    }
+                }
+            }
+        }
         res.put(
             "violation",
             J::obj()
@@ -178,6 +195,7 @@ fn cmd_io(m: &HashMap<String, String>) -> i32 {
                 .set("minimise_tries", J::u(tries))
                 .set("original_steps", J::u(plan.records.len() + plan.reads.len()))
                 .set("minimised_steps", J::u(minp.records.len() + minp.reads.len()))
+                .set("needed_batch_prefix_as_prelude", J::Bool(with_prelude))
                 .set("reproduced_in_fresh_process", J::Bool(reproduced)),
         );
         if !reproduced {
